@@ -40,7 +40,7 @@ def h(ty, opname, src, second=None):
     body += '    assert!(model::scopes() == 0, "work was done in parallel although num_threads(1) was in effect at the terminal call");\n'
     body += "    kani::cover!(total_calls() >= 2);\n"
     site = [f"{t}::{o}" for (t, o, _) in eager]
-    name = cfg_name("c16", ty, opname, second or "", src)
+    name = cfg_name("c16", ty, opname, ("then_" + second) if second else "", src)
     return H(name, body, {"type": ty, "op": opname, "then": second, "src": src, "n": 2, "threads": 2,
                           "eager_sites_on_chain": site, "site": site[0] if site else None},
              unwind=6, weight=3 + 5 * len(eager))
@@ -61,4 +61,6 @@ def harnesses(tier, seed):
                     for second in ("map", "filter", "filter_map", "flat_map"):
                         if not TRANSITIONS[(nt, second)].endswith("!") or True:
                             hs.append(h(ty, opname, "slice", second=second))
+    seen = set()
+    hs = [h for h in hs if not (h.name in seen or seen.add(h.name))]
     return hs
